@@ -117,7 +117,10 @@ type result struct {
 }
 
 func runCase(t vh.TB, c *Case) vh.Outcome {
-	return vh.Confirm(func(mult int) vh.Outcome { return runOnce(t, c, mult) })
+	return vh.Confirm(func(mult int) vh.Outcome {
+		st := stackFor(t, c.Procs).Stack
+		return st.Discount(runOnce(t, c, mult))
+	})
 }
 
 func runOnce(t vh.TB, c *Case, mult int) vh.Outcome {
